@@ -114,8 +114,10 @@ def check_set(run, scratch, g, files, caller, focus, name, model=True, known=Non
     got_rows = resolve_rows(io)
     # ---- property predicates on the real output
     if "nodes" in focus:
-        if len(got_rows) != len(exp_rows):
-            run.violation(case, {"what": "number of node rows != number of node elements", "impl": len(got_rows), "expected": len(exp_rows)})
+        repeat = {json.dumps(list(k_)): v_ for k_, v_ in g.get("repeat", {}).items()}
+        n_elements = len(exp_rows) + sum(repeat.values())
+        if len(got_rows) != n_elements:
+            run.violation(case, {"what": "number of node rows != number of node elements", "impl": len(got_rows), "expected": n_elements})
             return None
         # rows come in file order then document order; match by key
         by_key = {}
@@ -123,10 +125,12 @@ def check_set(run, scratch, g, files, caller, focus, name, model=True, known=Non
             by_key.setdefault(json.dumps(r["id"]), []).append(r)
         for k, e in exp_rows.items():
             cands = by_key.get(json.dumps(list(k)), [])
-            if len(cands) != 1:
-                run.violation(case, {"what": "node element has %d rows" % len(cands), "node": list(k)})
+            if len(cands) != 1 + repeat.get(json.dumps(list(k)), 0):
+                run.violation(case, {"what": "a node declared by %d element(s) has %d rows" % (1 + repeat.get(json.dumps(list(k)), 0), len(cands)), "node": list(k)})
                 return None
             diffs = row_matches(e, cands[0])
+            for c_ in cands[1:]:
+                diffs = diffs or row_matches(e, c_)
             if diffs:
                 fids = known(e, cands[0], diffs) if known else None
                 if fids and all(run.known(f_) for f_ in fids):
